@@ -300,6 +300,9 @@ def rule_C01(c):
     c.floor("C01.R7", 20)
     rule_object_extents(c, "C01.R7")
     # R6: the signature reader is canonical (one accepted string per point): same rules as C05.R1/R2 on E1_read_bytes
+    # R9: rejected inputs are reported with the INVALID code (never with a code the Go layer turns into an error)
+    c.floor("C01.R9", 3)
+    rule_verdict_codes(c, "C01.R9")
     c.floor("C01.R6", 10)
     rule_reader_coverage(c, "C01.R6", (("E1_read_bytes", 48),))
     rule_reader_header(c, "C01.R6", (("E1_read_bytes", 48, "Fp_read_bytes", "Fp_sqrt_montg", 48),))
@@ -335,6 +338,9 @@ def rule_C02(c):
     c.floor("C02.R1", 8)
     c.floor("C02.R4", 2)
     c.floor("C02.R5", 3)
+    # R8: rejected signatures are reported as INVALID (false, nil), never through a code the Go layer turns into an error
+    c.floor("C02.R8", 2)
+    rule_verdict_codes(c, "C02.R8", only=("bls_verifyPerDistinct",))
     s1 = rule_sanitised(c, "C02.R1", "bls_verifyPerDistinctMessage", 1)
     s2 = rule_sanitised(c, "C02.R1", "bls_verifyPerDistinctKey", 1)
     c.check(sorted(sum(s1.values(), [])) == sorted(sum(s2.values(), [])) and bool(s1), "C02.R1", "siblings/predicates", "bls_core.c",
@@ -522,6 +528,9 @@ def rule_C17(c):
     # R4: keys and proofs are handed to the pairing as affine points only after a conversion (= C04.R5)
     c.floor("C17.R4", 2)
     rule_affine_casts(c, "C17.R4")
+    # R5: rejected proofs / keys are reported as INVALID (false, nil), never through a code the Go layer turns into an error
+    c.floor("C17.R5", 1)
+    rule_verdict_codes(c, "C17.R5", only=("bls_spock_verify",))
     c.floor("C17.R1", 6)
     rule_pairing_flush(c, "C17.R1")
     parsed = rule_sanitised(c, "C17.R1", "bls_spock_verify", 2)
@@ -1045,6 +1054,9 @@ def rule_C04(c):
     # R6: encodings of sums: the writers export coordinates only for points tested not to be infinity
     c.floor("C04.R6", 2)
     rule_writer_infinity(c, "C04.R6")
+    # R8: a malformed / off-group signature in the list is reported with the INVALID code (documented error), never with another code
+    c.floor("C04.R8", 1)
+    rule_verdict_codes(c, "C04.R8", only=("E1_sum_vector_byte",))
     c.floor("C04.R3", 14)
     c.floor("C04.R5", 2)
     rule_affine_casts(c, "C04.R5")
@@ -1643,6 +1655,43 @@ def norm_eq(f, w):
 NARROW_INT_TYPES = {"byte", "unsigned char", "uint8_t", "char", "signed char", "int8_t", "short", "unsigned short", "uint16_t", "int16_t"}
 
 
+def _holds_only_codes(c, fd, e):
+    """e is a local variable whose every definition in fd is an enumeration constant or the result of a glue function
+    that returns only enumeration constants (VALID, INVALID, …)"""
+    if e.get("kind") != "DeclRefExpr" or e.get("referencedDecl", {}).get("kind") != "VarDecl":
+        return False
+    name = e["referencedDecl"].get("name")
+    defs = []
+    for x in walk(fd):
+        if x.get("kind") == "VarDecl" and x.get("name") == name:
+            init = [y for y in x.get("inner", []) if isinstance(y, dict) and "kind" in y and not y["kind"].endswith("Attr")]
+            if init:
+                defs.append(init[-1])
+        if x.get("kind") == "BinaryOperator" and x.get("opcode") == "=":
+            l = strip(x["inner"][0])
+            if l.get("kind") == "DeclRefExpr" and l.get("referencedDecl", {}).get("name") == name:
+                defs.append(x["inner"][1])
+        if x.get("kind") in ("CompoundAssignOperator",) or (x.get("kind") == "UnaryOperator" and x.get("opcode") in ("++", "--")):
+            l = strip(x["inner"][0])
+            if l.get("kind") == "DeclRefExpr" and l.get("referencedDecl", {}).get("name") == name:
+                return False
+    if not defs:
+        return False
+    for d in defs:
+        d = strip(d)
+        if d.get("kind") == "DeclRefExpr" and d.get("referencedDecl", {}).get("kind") == "EnumConstantDecl":
+            continue
+        if d.get("kind") == "CallExpr" and callee_name(d) in c.p.funcs:
+            try:
+                codes = return_codes(c, callee_name(d))
+            except cast.Unsupported:
+                return False
+            if codes and all(not x.startswith("?") for x, _ in codes):
+                continue
+        return False
+    return True
+
+
 def rule_no_index_narrowing(c, rule, fns):
     """In the glue functions whose sizes are caller-controlled `int`s (batch length, number of groups), no value derived
     from a loop counter / length is converted to an 8- or 16-bit integer — as an explicit cast or implicitly at a call of
@@ -1670,6 +1719,8 @@ def rule_no_index_narrowing(c, rule, fns):
             # only values that vary with a variable (a counter, a length)
             if not any(x.get("kind") == "DeclRefExpr" and x.get("referencedDecl", {}).get("kind") in ("VarDecl", "ParmVarDecl") for x in walk(inner[-1])):
                 continue
+            if _holds_only_codes(c, fd, strip(inner[-1])):
+                continue  # a verdict / error code kept in an int, not a position or a size
             n += 1
             txt = R(c.p.enums)(inner[-1])
             key = "%s/narrowing:%s->%s" % (fn, txt[:40], to)
@@ -1818,6 +1869,91 @@ def rule_reader_discipline_one(c, rule, fn):
     finally:
         c.p.funcs = saved
 
+
+
+# ------------------------------------------------------------------ verdict codes (C01.R9 / C02.R8 / C17.R5)
+
+VERDICT_CODES = ("VALID", "INVALID", "UNDEFINED")
+
+
+def return_codes(c, fn, depth=0, seen=None):
+    """the set of values a C function can return, as enum-constant names where resolvable: return operands, the
+    values assigned to a returned variable, and (recursively) the codes of a function whose result is returned.
+    Anything else is reported as `?<expr>`."""
+    seen = seen if seen is not None else set()
+    if fn in seen or depth > 4:
+        return set()
+    seen.add(fn)
+    g = c.p.cfg(fn)
+    out = set()
+
+    def classify(e):
+        e = strip(e)
+        s = g.r(e)
+        if e.get("kind") == "DeclRefExpr" and e["referencedDecl"].get("kind") == "EnumConstantDecl":
+            out.add((s, g.f["loc"].get("line", 0)))
+            return
+        if e.get("kind") == "CallExpr":
+            cn = callee_name(e)
+            if cn in c.p.funcs:
+                for code in return_codes(c, cn, depth + 1, seen):
+                    out.add(code)
+                return
+            out.add(("?" + s, 0))
+            return
+        if e.get("kind") == "ConditionalOperator":
+            classify(e["inner"][1])
+            classify(e["inner"][2])
+            return
+        if e.get("kind") == "DeclRefExpr" and e["referencedDecl"].get("kind") == "VarDecl":
+            v = s
+            found = False
+            for n in g.nodes:
+                if n.kind == "decl" and n.tag == v and n.expr is not None:
+                    found = True
+                    classify(n.expr)
+                if n.kind in ("stmt", "branch") and n.expr is not None:
+                    for x in walk(n.expr):
+                        if x.get("kind") == "BinaryOperator" and x["opcode"] == "=" and g.r(x["inner"][0]) == v:
+                            found = True
+                            classify(x["inner"][1])
+            if not found:
+                out.add(("?" + s, 0))
+            return
+        out.add(("?" + s, 0))
+
+    for n in g.nodes:
+        if n.kind == "ret" and n.expr is not None:
+            classify(n.expr)
+    return out
+
+
+def rule_verdict_codes(c, rule, only=None):
+    """Every int-returning entry point of the BLS glue that can report INVALID is a verdict function: the Go
+    callers map INVALID to (false, nil), VALID to (true, nil) and anything else to an error.  A rejected signature
+    or key (malformed, off the curve, outside the subgroup) is an invalid signature, not an error: such a
+    function may only return VALID, INVALID or UNDEFINED (the allocation-failure code)."""
+    n = 0
+    for fn, f in sorted(c.p.funcs.items()):
+        rtype = (f.get("type", {}).get("qualType", "") or "").split("(")[0].strip()
+        if rtype != "int":
+            continue
+        if f.get("storageClass") == "static":
+            continue
+        if only is not None and not any(fn.startswith(o) for o in only):
+            continue
+        try:
+            codes = return_codes(c, fn)
+        except cast.Unsupported as e:
+            continue
+        names = {x for x, _ in codes}
+        if "INVALID" not in names:
+            continue
+        n += 1
+        bad = sorted(x for x in names if x not in VERDICT_CODES)
+        c.check(not bad, rule, fn + "/verdict-codes", c.p.pos(f), "returns only VALID / INVALID / UNDEFINED (%s)" % ", ".join(sorted(names)),
+                "verdict function %s can return %s: the Go caller treats every code other than VALID/INVALID as an unexpected error, so a rejected input is reported as an error instead of an invalid signature" % (fn, ", ".join(bad)))
+    return n
 
 # ------------------------------------------------------------------ C07.R5 (vector intake in C)
 
